@@ -7,37 +7,86 @@ from vlib import hexd, frac, frac_of_hex, unhex
 EPS = 2.0 ** -52
 
 
+STYLES = ["dyadic", "full", "tinyscale", "singular", "scalar", "zeroF", "nonnormal", "symF", "diagF", "identityF", "orthF", "hugescale", "mixedscale", "full"]
+
+
+def scale_of(r, style, which):
+    """overall magnitude of a covariance: the property does not constrain scale"""
+    if style == "tinyscale":
+        return 10 ** r.uniform(-10, -4)
+    if style == "hugescale":
+        return 10 ** r.uniform(4, 10)
+    if style == "mixedscale":
+        return 10 ** (r.uniform(-9, -4) if (which == "P") == (r.random() < 0.5) else r.uniform(3, 8))
+    return None
+
+
 def gen_case(g, tier, idx):
+    """one KFPrediction object, 1..3 predict() calls -> (harness line, [single-call kfp lines], meta)"""
     r = g.r
     big = 6 if tier == "quick" else 9
-    style = r.choice(["dyadic", "full", "full", "singular", "scalar", "zeroF", "nonnormal"])
-    n = 1 if style == "scalar" else r.randint(1, big)
-    k = r.choice([1, 1, 2, 3, 4])
-    exo = r.random() < 0.5
+    style = STYLES[idx % len(STYLES)] if idx < 3 * len(STYLES) else r.choice(STYLES)
+    n = 1 if style == "scalar" else (idx % big + 1 if idx < 4 * big else r.randint(1, big))
+    exo = (idx % 2 == 0) if idx < 40 else (r.random() < 0.5)
     if style == "dyadic":
-        Ps = [g.spd_dyadic(n) for _ in range(k)]
         Q = g.spd_dyadic(n)
         F = [[g.dyadic(-2, 2, 3) for _ in range(n)] for _ in range(n)]
-        means = [[g.dyadic(-4, 4, 3) for _ in range(n)] for _ in range(k)]
     else:
-        rank = r.randint(0, n) if style == "singular" else None
-        Ps = [g.spd(n, rank=rank) for _ in range(k)]
-        Q = g.spd(n, rank=(r.randint(0, n) if style == "singular" else None))
+        Q = g.spd(n, rank=(r.randint(0, n) if style == "singular" else None), scale=scale_of(r, style, "Q"))
         F = g.mat(n, n)
-        means = [g.vec(n) for _ in range(k)]
+        if style in ("tinyscale", "hugescale") and r.random() < 0.5:
+            fs = 10 ** (r.uniform(-6, -2) if style == "tinyscale" else r.uniform(2, 6))
+            F = [[fs * x for x in row] for row in F]
     if style == "zeroF":
         F = [[0.0] * n for _ in range(n)]
     if style == "nonnormal":
-        F = [[(F[i][j] if j >= i else 0.0) for j in range(n)] for i in range(n)]  # upper triangular, non symmetric
-    toks = ["kfp", str(n), str(k), "1" if exo else "0"] + vlib.fmt_mat_cm(F) + vlib.fmt_mat_cm(Q)
+        F = [[(F[i][j] if j >= i else 0.0) for j in range(n)] for i in range(n)]
+    if style == "symF":
+        F = [[F[min(i, j)][max(i, j)] for j in range(n)] for i in range(n)]
+    if style == "diagF":
+        F = [[(F[i][j] if i == j else 0.0) for j in range(n)] for i in range(n)]
+    if style == "identityF":
+        F = [[1.0 if i == j else 0.0 for j in range(n)] for i in range(n)]
+    if style == "orthF":
+        F = g.orth(n)
+    head = vlib.fmt_mat_cm(F) + vlib.fmt_mat_cm(Q)
     if exo:
         G = g.mat(n, n)
         gv = g.vec(n)
-        toks += vlib.fmt_mat_cm(G) + [hexd(v) for v in gv]
-    toks += [hexd(means[c][i]) for c in range(k) for i in range(n)]
-    toks += [hexd(Ps[c][i][j]) for c in range(k) for j in range(n) for i in range(n)]
-    toks += [hexd(r.uniform(0.01, 1.0)) for _ in range(k)]
-    return " ".join(toks), {"style": style, "n": n, "k": k, "exo": exo}
+        head += vlib.fmt_mat_cm(G) + [hexd(v) for v in gv]
+    ncalls = r.choice([1, 1, 2, 3])
+    seq = ["kfps", str(n), "1" if exo else "0"] + head + [str(ncalls)]
+    singles = []
+    for _ in range(ncalls):
+        k = r.choice([1, 1, 2, 3, 4, 6])
+        if style == "dyadic":
+            Ps = [g.spd_dyadic(n) for _ in range(k)]
+            means = [[g.dyadic(-4, 4, 3) for _ in range(n)] for _ in range(k)]
+        else:
+            Ps = [g.spd(n, rank=(r.randint(0, n) if style == "singular" else None), scale=scale_of(r, style, "P")) for _ in range(k)]
+            means = [g.vec(n) for _ in range(k)]
+        toks = [hexd(means[c][i]) for c in range(k) for i in range(n)]
+        toks += [hexd(Ps[c][i][j]) for c in range(k) for j in range(n) for i in range(n)]
+        toks += [hexd(r.uniform(0.01, 1.0)) for _ in range(k)]
+        seq += [str(k)] + toks
+        singles.append(" ".join(["kfp", str(n), str(k), "1" if exo else "0"] + head + toks))
+    return " ".join(seq), singles, {"style": style, "n": n, "exo": exo, "calls": ncalls}
+
+
+def split_seq_output(hout, ncalls):
+    if not hout.startswith("ok"):
+        return [hout] * ncalls
+    outs, cur = [], None
+    for x in hout.split()[1:]:
+        if x == "call":
+            if cur is not None:
+                outs.append("ok " + " ".join(cur))
+            cur = []
+        elif cur is not None:
+            cur.append(x)
+    if cur is not None:
+        outs.append("ok " + " ".join(cur))
+    return (outs + ["crash:short-output"] * ncalls)[:ncalls]
 
 
 def parse_case(line):
@@ -75,7 +124,8 @@ def check_case(line, hout, dout, stats):
     if same != "in-same":
         probs.append(("prop", "input-modified", "the belief passed in was modified"))
     if list(cw) != list(outw):
-        probs.append(("corr", "weights-written", "weights of the output mixture changed (model: not written)"))
+        # not part of C02 (the property does not speak about the weights): recorded, never an alarm
+        stats["note_weights_written"] = stats.get("note_weights_written", 0) + 1
     nF = vlib.fnorm(F) * n
     for c in range(k):
         # specification side, computed here independently of the Lean model
@@ -110,41 +160,68 @@ def check_case(line, hout, dout, stats):
     return probs
 
 
+def replay_case(path):
+    """re-run the input recorded in a replay file (a kfps sequence line or a single kfp line)"""
+    import json
+    line = json.load(open(path))["replay"]["input_line"]
+    t = line.split()
+    if t[0] == "kfp":
+        return (line, [line], {"style": "replay", "calls": 1})
+    n, exo = int(t[1]), t[2] == "1"
+    p = 3
+    hl = 2 * n * n + ((n * n + n) if exo else 0)
+    head = t[p:p + hl]; p += hl
+    ncalls = int(t[p]); p += 1
+    singles = []
+    for _ in range(ncalls):
+        k = int(t[p]); p += 1
+        ln = n * k + n * n * k + k
+        singles.append(" ".join(["kfp", str(n), str(k), "1" if exo else "0"] + head + t[p:p + ln])); p += ln
+    return (line, singles, {"style": "replay", "n": n, "exo": exo, "calls": ncalls})
+
+
 def run(ctx):
     ctx.proof_stage()
     binary = vlib.build_harness("h_kf")
     g = ctx.gen("kfp")
-    N = ctx.n(200, 5000)
+    N = ctx.n(130, 3000)
     cases = []
     corpus = vlib.VERIF / "corpus" / "C02" / "cases.txt"
     if corpus.exists():
-        cases += [(ln.strip(), {"style": "corpus"}) for ln in corpus.read_text().split("\n") if ln.strip()]
+        cases += [(ln.strip(), [ln.strip()], {"style": "corpus", "calls": 1}) for ln in corpus.read_text().split("\n") if ln.strip()]
     cases += [gen_case(g, ctx.tier, i) for i in range(N)]
-    lines = [c[0] for c in cases]
-    hout, logs = vlib.run_harness(binary, lines)
-    dout = vlib.run_driver(lines)
+    if ctx.replay:
+        cases = [replay_case(ctx.replay)]
+    hout, logs = vlib.run_harness(binary, [c[0] for c in cases])
+    singles = [l for c in cases for l in c[1]]
+    dout = vlib.run_driver(singles)
     stats, hist, distinct = {}, {}, set()
     corr_bad, prop_bad = [], []
-    for (line, meta), h, d in zip(cases, hout, dout):
+    pos = 0
+    for (hline, slines, meta), h in zip(cases, hout):
         key = "%s%s" % (meta.get("style"), "+exo" if meta.get("exo") else "")
         hist[key] = hist.get(key, 0) + 1
-        distinct.add(line)
-        for kind, key2, what in check_case(line, h, d, stats):
-            (corr_bad if kind == "corr" else prop_bad).append((key2, what, line, h))
+        outs = split_seq_output(h, len(slines)) if hline.startswith("kfps") else [h]
+        for sl, ho in zip(slines, outs):
+            distinct.add(sl)
+            for kind, key2, what in check_case(sl, ho, dout[pos], stats):
+                (corr_bad if kind == "corr" else prop_bad).append((key2, what, hline, h))
+            pos += 1
     for key2, what, line, h in prop_bad[:20]:
         ctx.violation(key2, "KFPrediction: " + what, {"harness": "h_kf", "input_line": line, "observed": h[:2000]})
     if corr_bad and not prop_bad:
         key2, what, line, h = corr_bad[0]
         ctx.violation("correspondence:" + key2, "model and implementation disagree (%d cases), no property predicate failed: %s" % (len(corr_bad), what),
                       {"harness": "h_kf", "correspondence": "kfPredict vs KFPrediction::predictStep", "input_line": line, "observed": h[:2000]}, no_input=True)
-    nontrivial = sum(1 for (l, m) in cases if m.get("n", 2) > 1 or m.get("k", 1) > 1)
+    nontrivial = sum(1 for sl in distinct if int(sl.split()[1]) > 1 or int(sl.split()[2]) > 1)
     ctx.coverage.update({
-        "evaluations": len(cases), "distinct_nontrivial": min(len(distinct), nontrivial),
-        "rule": "random KF predictions (n in 1..%d, k in 1..4, arbitrary F incl. zero/triangular, PSD P and Q incl. singular, with/without exogenous model u = G x + g); "
-                "non-trivial = n > 1 or k > 1; distinct = distinct input lines" % (6 if ctx.quick() else 9),
+        "evaluations": len(singles), "distinct_nontrivial": nontrivial,
+        "rule": "KFPrediction objects used for 1..3 successive predict() calls (new component count per call); n in 1..%d, k in {1,2,3,4,6}; arbitrary F incl. zero/"
+                "triangular/symmetric/diagonal/identity/orthogonal, PSD P and Q incl. singular, with/without exogenous model u = G x + g; "
+                "non-trivial = n > 1 or k > 1; distinct = distinct single-call inputs" % (6 if ctx.quick() else 9),
         "samples": [cases[0][0][:400], cases[-1][0][:400]],
-        "style_histogram": hist, "numeric": stats,
-        "traces_validated_against_impl": len(cases),
+        "style_histogram": hist, "numeric": stats, "objects": len(cases),
+        "traces_validated_against_impl": len(singles),
         "model_vs_impl_disagreements": len(corr_bad), "property_failures_on_impl": len(prop_bad),
         "sanitizer_crashes": len(logs),
     })
